@@ -65,6 +65,12 @@ def cases(tier, inst):
         for db in tiny_domains(2):
             for t in (("cmp", "eq", A(X, "p"), A(Y, "p")), ("cmp", "le", A(X, "q"), A(Y, "p")), None):
                 yield ("vsetof", t, (da, db))
+    # the(...) around a predicate-form term with a field constraint, the(T(From(d), p=k)): such a term is an an(...) of its
+    # own, `the` must still be a uniqueness check
+    for w in worlds1:
+        for k in (1, 2):
+            for f in ("p", "q"):
+                yield ("pformthe", (f, k), w)
     # two `the` queries (and an `an`) over ONE variable: the first may stop in the middle of the domain
     # (MultipleSolutionFound is raised at the second solution); the other must still see the whole domain
     reps = REPRESENTATIVE_8 if thorough else REPRESENTATIVE_8[:5]
@@ -89,7 +95,7 @@ def wspec_of(case):
         return (("D", "VItem", w),)
     if kind == "vsetof":
         return (("DA", "VItem", w[0]), ("DB", "VItem", w[1]))
-    if kind == "entity":
+    if kind in ("entity", "pformthe"):
         kids = tuple((("p", GRID9[i][1]), ("q", GRID9[i][0]), ("flag", GRID9[i][0] > GRID9[i][1])) for i in w)
         rows = tuple(grid_row(GRID9[i][0], GRID9[i][1], "Dk", j) for j, i in enumerate(w))
         return (("Dk", "Item", kids), ("D", "Item", rows))
@@ -98,6 +104,10 @@ def wspec_of(case):
 
 def query_of(case, quant="the"):
     kind, t, w = case
+    if kind == "pformthe":
+        if quant == "an":
+            return ("Q", "an", "entity", X, (("cmp", "eq", A(X, t[0]), L(t[1])),), VX)
+        return ("Q", "the", "entity0", ("pform", "Item", "D", (), ((t[0], L(t[1])),)), (), ())
     conds = (t,) if t else ()
     if kind == "entity":
         return ("Q", quant, "entity", X, conds, VX)
@@ -118,8 +128,8 @@ def observe_the(q, world, inst):
     for _ in range(2):
         try:
             r = obj.evaluate()
-            if q[2] == "entity":
-                out.append(("value", (Q.norm(r),)))
+            if q[2] in ("entity", "entity0"):
+                out.append(("value", (Q.norm(r),)) if not hasattr(r, "__next__") else ("not-a-value", type(r).__name__))
             else:
                 out.append(("value", tuple(Q.norm(r[s]) for s in b.sel[q])))
         except MultipleSolutionFound:
@@ -192,8 +202,9 @@ def run_case(case, inst):
         world = build_world(wspec_of(case), inst)
         obs = observe_the(q, world, inst)
         ref = Q.Ref(world, inst)
-        sols = ref.solutions(q)
-        sel = q[3] if q[2] == "setof" else (q[3],)
+        qo = qa if case[0] == "pformthe" else q        # the explicit form has the same solutions
+        sols = ref.solutions(qo)
+        sel = qo[3] if qo[2] == "setof" else (qo[3],)
         rows = [tuple(Q.norm(env[s[1]]) for s in sel) for env in sols]
         # what an(...) yields for the same description, built afresh on a fresh world of the same shape
         world2 = build_world(wspec_of(case), inst)
@@ -206,7 +217,7 @@ def run_case(case, inst):
         except Exception as e:
             an_rows = exc_obs(e)
         total = 1
-        for v in q[5]:
+        for v in qo[5]:
             total *= len(ref.domain(v))
         return obs, rows, an_rows, total
 
@@ -215,7 +226,8 @@ def run_case(case, inst):
     exp = ("NoSolution",) if n == 0 else (("value", rows[0]) if n == 1 else ("Multiple",))
     klass = "0" if n == 0 else ("1" if n == 1 else ">=2")
     res = {"ok": True, "nontrivial": 0 < n < total, "transitions": 3,
-           "tags": [f"kind={case[0]}", f"solutions={klass}", f"root={root_kind(case[1]) if case[1] else 'none'}"],
+           "tags": [f"kind={case[0]}", f"solutions={klass}",
+                    f"root={root_kind(case[1]) if case[1] and case[0] != 'pformthe' else 'none'}"],
            "outcome": f"{case[0]}:{klass}"}
     if isinstance(an_rows, list) and len(set(an_rows)) != n:
         # `an` itself disagrees with the oracle: that is C01/C02's finding, not C06's; judge `the` against `an`
